@@ -126,7 +126,19 @@ var c03Spec = fw.Spec[c03Case]{
 		"the scheduler is sequentially consistent (no weak-memory effects)",
 		"memory the shims cannot see (slice backing arrays, Router fields) is covered for the race clause only by the free-running -race pass, a dynamic happens-before detector, not an enumeration",
 	},
-	Bounds: func(tier string) map[string]any { return c03Bounds(tier) },
+	Bounds: func(tier string) map[string]any {
+		b := c03Bounds(tier)
+		if conf := os.Getenv("VERIF_CONFORMANCE"); conf != "" {
+			b["conformance_rux_suite_under_overlay"] = conf
+		}
+		return b
+	},
+	Guard: func(tier string, st *fw.Stats) []string {
+		if conf := os.Getenv("VERIF_CONFORMANCE"); strings.HasPrefix(conf, "fail") {
+			return []string{"conformance run of rux's own suite under the instrumented build failed: " + conf}
+		}
+		return nil
+	},
 	Gen: func(tier string, emit func(c03Case)) {
 		c03GenSched(tier, emit)
 		if tier == "quick" {
